@@ -41,75 +41,18 @@ def r1_names(ctx):
         if bb_value(v) == 1 << i:
             n_ok += 1
     ctx.ob(rule, SQ + 'A1..H8', 'square constants are 1 << (8*rank+file)', n_ok == 64, found=n_ok, expected=64)
-    # to_algebraic: shift-count loop returning ALGEBRAIC[i-1]
+    # to_algebraic: tabulated by partial evaluation on all 64 single-square boards (constant propagation through its loop / bit tricks,
+    # whichever way the bit index is computed): the name returned for 1 << (8*rank+file) must be "<file letter><rank digit>"
     name = SQ + 'to_algebraic'
-    outs = Engine(facts).run(name)
     ctx.touch(name)
-    rets = [o for o in outs if o.kind == 'return']
-    backs = [o for o in outs if o.kind == 'backedge']
-    ok = False
-    detail = {}
-    if len(rets) == 1 and len(backs) == 1:
-        v = rets[0].value
-        head = [e for e in rets[0].events if e[0] == 'loop_head']
-        if v[0] == 'idx' and v[1] == ('named', SQ + 'tables::ALGEBRAIC') and head:
-            idx = v[2]
-            before = head[0][3]
-            if idx[0] == 'bin' and idx[1] == 'Sub' and idx[3] == C(1) and idx[2][0] == 'lv':
-                cnt = idx[2][2]
-                bloc = [l for l, t in before.items() if t[0] == 'agg' or (t[0] == 'p')]
-                upd = backs[0].locals
-                i_next = upd.get(cnt)
-                init_i = before.get(cnt)
-                from sa.sym import field as sfield
-                shifted = []
-                for l, t in upd.items():
-                    f0 = sfield(t, '0')
-                    if f0[0] == 'bin' and f0[1] == 'Shr' and f0[3] == C(1) and f0[2] == ('fld', ('lv', idx[2][1], l), '0'):
-                        shifted.append(l)
-                exit_cond = [c for c in rets[0].conds if c[1] == 0 and c[0][0] == 'fld']
-                detail = {'index': show(idx), 'counter init': show(init_i) if init_i else None, 'counter step': show(i_next) if i_next else None,
-                          'shifted locals': shifted, 'exit': [show_cond(c) for c in rets[0].conds]}
-                ok = (init_i == C(0) and i_next == ('bin', 'Add', ('lv', idx[2][1], cnt), C(1)) and len(shifted) == 1
-                      and before.get(shifted[0]) == ('p', 1))
-    if not ok and len(rets) == 1 and not backs:
-        # the same count written with adapters: ALGEBRAIC[(0..64).take_while(|s| !(b >> s).is_empty()).count() - 1]; the predicate term is
-        # evaluated for every single-bit board and every shift: the length of its true prefix must be bit index + 1
-        v = rets[0].value
-        if v[0] == 'idx' and v[1] == ('named', SQ + 'tables::ALGEBRAIC') and v[2][0] == 'bin' and v[2][1] == 'Sub' and v[2][3] == C(1):
-            cnt = v[2][2]
-            tw = cnt[2][0] if cnt[0] == 'call' and cnt[1].endswith('Iterator::count') and len(cnt[2]) == 1 else None
-            if tw is not None and tw[0] == 'call' and tw[1].endswith('Iterator::take_while') and tw[2][0][0] == 'agg' and str(tw[2][0][2]).endswith('Range') \
-                    and tw[2][1][0] == 'agg' and tw[2][1][1] == 'closure':
-                rf = dict(tw[2][0][4])
-                snaps = [e[2] for e in rets[0].events if e[0] == 'closure' and e[1] == tw[2][1][2]]
-                co = [o for o in Engine(facts).run(tw[2][1][2]) if o.kind != 'abort']
-                ctx.touch(tw[2][1][2])
-                if rf.get('start') == C(0) and rf.get('end') == C(64) and snaps and snaps[0] == (('p', 1),) or (snaps and show(snaps[0][0]) in ('arg1', 'assert_square@0(arg1)')):
-                    if len(co) == 1 and co[0].kind == 'return' and not co[0].conds:
-                        from sa.evalterm import ev, Unevaluable
-                        pred = subst_upvars(co[0].value, snaps[0])
-
-                        def bev(t_, env):
-                            if t_[0] == 'un' and t_[1] == 'Not':
-                                return int(not bev(t_[2], env))
-                            return int(bool(ev(t_, env)))
-                        good = True
-                        try:
-                            for k in range(64):
-                                n_true = 0
-                                for s_ in range(64):
-                                    if bev(pred, {('fld', snaps[0][0], '0'): 1 << k, snaps[0][0]: 1 << k, ('der', ('p', 2)): s_, ('p', 2): s_}):
-                                        n_true += 1
-                                    else:
-                                        break
-                                good = good and n_true == k + 1
-                        except Unevaluable:
-                            good = False
-                        ok = good
-                        detail = {'form': 'take_while(..).count() - 1', 'predicate': show(pred)}
-    ctx.ob(rule, name, 'returns ALGEBRAIC[number of right shifts until empty - 1] (= bit index)', ok, found=detail,
-           expected='i = 0; while b != 0 { b >>= 1; i += 1 }; ALGEBRAIC[i - 1]')
+    bad = []
+    for k in range(64):
+        outs = [o for o in Engine(facts, concrete=True).run(name, args=[bb(1 << k)]) if o.kind != 'abort']
+        wantn = 'abcdefgh'[k % 8] + str(k // 8 + 1)
+        if len(outs) != 1 or outs[0].kind != 'return' or outs[0].value != C(wantn):
+            bad.append((wantn, [show(o.value) if o.value else o.kind for o in outs][:2]))
+    ctx.ob(rule, name, 'to_algebraic(1 << i) is the lower-case name of square i, for all 64 squares', not bad, found=bad[:4], expected=[],
+           why='squares are rendered as file letter + rank digit in lower case')
     # from_rank_file
     name = SQ + 'from_rank_file'
     outs = Engine(facts).run(name)
@@ -121,24 +64,37 @@ def r1_names(ctx):
     ctx.ob(rule, name, '1 << (file + 8*rank)', got in (want, alt), found=show(got) if got else None, expected=show(want))
     # square_string_to_bitboard: file table, rank = digit - 1, argument order
     name = SQ + 'square_string_to_bitboard'
-    eng = Engine(facts, readonly={SQ + 'from_rank_file'})
+    eng = Engine(facts, readonly={SQ + 'from_rank_file'}, unroll=True)
     outs = eng.run(name)
     ctx.touch(name)
     rets = [o for o in outs if o.kind == 'return']
     table = {}
     rank_ok = set()
     arg_ok = set()
+    # the file index as a function of the (lower-cased) file character, whichever way it is looked up (match, table + position): every
+    # return path tests one character atom against constants; the table is read off by deciding, for each ASCII code, which path it takes
+    char_rows = []
     for o in rets:
         v = o.value
         if not (v[0] == 'call' and v[1] == SQ + 'from_rank_file'):
             continue
         rank_t, file_t = v[2]
-        # file comes from a char match
-        chars = [(a, val) for a, val in o.conds if isinstance(val, int) and val >= 0x41 and a[0] != 'discr']
-        if len(chars) == 1 and is_const(file_t):
-            table[chr(chars[0][1])] = file_t[1]
+        cc = [(a, val) for a, val in o.conds if a[0] != 'discr' and ((isinstance(val, int) and not isinstance(val, bool) and val >= 0x41)
+                                                                     or (isinstance(val, tuple) and val and val[0] == 'not' and all(isinstance(x, int) and x >= 0x41 for x in val[1])))]
+        atoms = {a for a, _ in cc}
+        if len(atoms) == 1 and is_const(file_t):
+            char_rows.append((cc, file_t[1]))
         rank_ok.add(rank_t[0] == 'cast' and rank_t[1][0] == 'bin' and rank_t[1][1] == 'Sub' and rank_t[1][3] == C(1)
                     and any(s[0] == 'call' and s[1].endswith('::to_digit') for s in subterms(rank_t)))
+    for code in range(0x41, 0x7b):
+        hit = set()
+        for cc, fv in char_rows:
+            if all((code not in val[1]) if isinstance(val, tuple) else code == val for _, val in cc):
+                hit.add(fv)
+        if len(hit) == 1:
+            table[chr(code)] = hit.pop()
+        elif hit:
+            table[chr(code)] = '?'
     want = {c: i for i, c in enumerate('abcdefgh')}
     ctx.ob(rule, name, 'file letter table a..h -> 0..7', table == want, found=table, expected=want,
            why='reading a square name back must give the same square')
@@ -181,12 +137,19 @@ def r2_suffix(ctx):
     reader = {}
     rname = None
     # the char -> piece map of the reader, tabulated by partial evaluation on all 128 ASCII characters (any spelling: match, lookup table)
-    for c in clos:
-        if c.arg_count != 2 or c.local_ty(2) != 'char':
+    # ... written as a closure of the reader or as a named `fn(char) -> Piece` that the reader reaches
+    # (a function handed to `map` by name is not a call edge: take the functions of the reader's module and what the reader calls)
+    mod_ = SF.rsplit('::', 1)[0] + '::'
+    reach = set(facts.reachable_fns([SF] + [c.name for c in clos])) | {n for n in facts.fns if n.startswith(mod_)}
+    named = [facts.fns[n] for n in sorted(reach) if n in facts.fns and facts.fns[n].crate == 'chess' and facts.fns[n].kind != 'Closure'
+             and facts.fns[n].arg_count == 1 and facts.fns[n].local_ty(1) == 'char' and facts.fns[n].local_ty(0) == PIECE_ADT]
+    for c in clos + named:
+        is_clo = c.kind == 'Closure'
+        if is_clo and (c.arg_count != 2 or c.local_ty(2) != 'char'):
             continue
         tbl = {}
         for code in range(128):
-            outs = [o for o in Engine(facts, unroll=True).run(c.name, args=[None, C(code)]) if o.kind != 'abort']
+            outs = [o for o in Engine(facts, unroll=True).run(c.name, args=([None, C(code)] if is_clo else [C(code)])) if o.kind != 'abort']
             if len(outs) == 1 and outs[0].kind == 'return' and outs[0].value[0] == 'agg' and outs[0].value[2] == PIECE_ADT:
                 tbl[chr(code)] = outs[0].value[3]
             elif outs:
